@@ -257,7 +257,7 @@ class Var:
                             # double quote.
                             pass
                         else:
-                            val = special_formats[fmt](val, name, md)
+                            val = self._special_format(fmt, val, name, md)
                     elif fmt == '':
                         val = ''
                     else:
@@ -286,7 +286,7 @@ class Var:
                         # double quote.
                         pass
                     else:
-                        val = special_formats[fmt](val, name, md)
+                        val = self._special_format(fmt, val, name, md)
                 elif fmt == '':
                     val = ''
                 else:
@@ -312,8 +312,12 @@ class Var:
 
         # next, look for upper, lower, etc
         for f in self.modifiers:
-            if f.__name__ == 'html_quote' and isinstance(val, TaintedString):
-                # TaintedStrings will be quoted by default, don't double quote.
+            if f.__name__ == 'html_quote':
+                if isinstance(val, TaintedString):
+                    # TaintedStrings will be quoted by default, don't double
+                    # quote.
+                    continue
+                val = f(val, encoding=self.encoding)
                 continue
             val = f(val)
 
@@ -342,6 +346,12 @@ class Var:
         return val
 
     __call__ = render
+
+    def _special_format(self, fmt, val, name, md):
+        if fmt == 'html-quote':
+            # bytes are decoded with the template's encoding
+            return html_quote(val, name, md, encoding=self.encoding)
+        return special_formats[fmt](val, name, md)
 
 
 class Call:
